@@ -71,6 +71,11 @@ CHECKS = {
    "After every fault event a fresh connection must get 200 from /health; all bytes the server returned must parse as complete valid HTTP/1.1 responses (HTTP/2 frames after the preface); a first request that the conservative classifier calls definitely malformed must not be answered below 400.",
    "conservative request classifier (only the listed definite malformations decide); partial answers on still-open connections are not judged; HTTP/1.1 over TCP only",
    "DESIGN.md section 4/C18"),
+ "C20": ("E2-live", "exploration",
+   "complete enumeration of the handshake product Connection(13) x Upgrade(9) x Sec-WebSocket-Version(6) x key(8) = 5616 handshakes over raw TCP against a real server, plus byte-level echo of every byte value and of payload sizes 1..200000 through the upgraded connection",
+   "Every handshake of the product is sent on its own connection; upgraded iff the reference predicate holds, with Sec-WebSocket-Accept equal to the harness's own SHA-1/base64 digest; refused ones get 4xx and are never upgraded; bytes echo unmodified.",
+   "the channel handler is a raw byte echo; Connection values that are not token lists are outside the alphabet; own SHA-1 self-tested on the RFC example",
+   "DESIGN.md section 4/C20"),
 }
 
 NOT_YET = {
@@ -111,7 +116,7 @@ def main():
       "engines": [
         {"name": "E1", "path": "harness/src/e1.rs + harness/src/bin/e1.rs", "serves_properties": ["C01","C02","C04","C06"], "kind_free_text": "stateless explicit exploration of registration histories on the real ApiDescription/HttpRouter"},
         {"name": "E3", "path": "harness/src/live.rs + harness/src/e3.rs + harness/src/bin/e3.rs", "serves_properties": ["C16","C17","C18"], "kind_free_text": "live event explorer: real HttpServer on loopback, raw TCP client, gated handlers, in-memory slog drain; stateless replay of every history"},
-        {"name": "E2", "path": "harness/src/bin/c03.rs c05.rs ...", "serves_properties": ["C03","C05","C12","C13","C14","C15"], "kind_free_text": "bounded-exhaustive input enumeration against reference functions, on the real public functions"},
+        {"name": "E2", "path": "harness/src/bin/c03.rs c05.rs ...", "serves_properties": ["C03","C05","C12","C13","C14","C15","C20"], "kind_free_text": "bounded-exhaustive input enumeration against reference functions, on the real public functions"},
       ],
       "checks": checks,
       "not_applicable": na,
